@@ -9,7 +9,7 @@ import struct
 
 from hypothesis import strategies as st
 
-from vf.core import HarnessError, HypPart, Oracle, VERIF_DIR
+from vf.core import CaseFailed, HarnessError, HypPart, Oracle, SkipCase, VERIF_DIR, spsdk_frame
 from vf.gen import dbenum
 from vf.gen import keys as K
 from vf.ref import ahab_check as A
@@ -179,10 +179,12 @@ def _image(t: dict, quick: bool):
 
 def _container(t: dict, quick: bool):
     n_img = st.one_of(st.integers(1, 2), st.integers(1, 3), st.integers(1, t["max_img"]))
+    perms = st.one_of(st.just(["container"]), st.just(["container", "debug"]), st.lists(st.sampled_from(sorted(PERMS)), unique=True, min_size=1, max_size=4),
+                      st.lists(st.sampled_from(sorted(PERMS)), unique=True, max_size=2))
     cert = st.one_of(
-        st.none(), st.none(),
+        st.none(),
         st.fixed_dictionaries({
-            "k": st.integers(1, 1 << 200), "perms": st.lists(st.sampled_from(sorted(PERMS)), unique=True, max_size=3),
+            "k": st.integers(1, 1 << 200), "perms": perms,
             "uuid": st.one_of(st.none(), st.binary(min_size=16, max_size=16)), "perm_data": st.one_of(st.none(), st.binary(min_size=12, max_size=12)),
             "fuse": _u(8),
         }),
@@ -197,7 +199,7 @@ def _container(t: dict, quick: bool):
         "srk_set": st.sampled_from(["none", "oem", "oem", "oem"]), "keys": _keyset(), "used": st.integers(0, 3), "mask": st.integers(0, 15),
         "revoke_used": st.integers(0, 39).map(lambda x: x == 0), "fuse": _u(8), "sw": _u(16), "gdet": st.sampled_from(["disabled", "disabled", None, "enabled_eleapi", "enabled"]),
         "check_all": st.sampled_from([None, None, "default", "check_all_signatures"]), "flag_ca": st.integers(0, 9).map(lambda x: x == 0),
-        "srk_enc": st.sampled_from(["pub_pem", "pub_pem", "pub_der", "cert_pem", "priv_pem", "ca_cert_der"]), "sign_enc": st.sampled_from(["pem", "der"]),
+        "srk_enc": st.sampled_from(["pub_pem", "pub_pem", "pub_der", "cert_pem", "priv_pem", "ca_cert_der"]), "sign_enc": st.sampled_from(["pem", "der", "pem", "sp_pem"]),
         "cert": cert, "blob": blob, "images": n_img.flatmap(lambda n: st.lists(_image(t, quick), min_size=n, max_size=n)),
     })
 
@@ -206,6 +208,13 @@ def _fit(case: dict) -> dict:
     """Keep most cases inside the format's limits: a version-1 container that is not the last one has a 1 KiB slot."""
     t = _tuple(case["dev"], case["rev"])
     ver = case["cver"] or t["types"][0]
+    for c in case["containers"]:
+        if ver == 2 and t["cert"] and c["cert"] and c["srk_set"] == "oem":
+            # whether an SRK table with the CA flag may go with a certificate whose key record has no CA flag is not settled by the
+            # property (SPSDK's verifier demands equal flags): left out, see the report
+            c["flag_ca"] = False
+            if c["srk_enc"] == "ca_cert_der":
+                c["srk_enc"] = "pub_der"
     if ver == 1 and not case["overflow"]:
         for c in case["containers"][:-1]:
             if c["srk_set"] == "oem" and c["keys"]["t"] == "rsa":
@@ -225,7 +234,10 @@ def _cases(quick: bool):
             "overflow": st.integers(0, 11).map(lambda x: x == 0), "tamper": st.lists(st.integers(0, (1 << 40) - 1), min_size=3, max_size=3),
         }).map(_fit)
 
-    return st.sampled_from(_tuples()).flatmap(per_tuple)
+    tuples = _tuples()
+    # version-2 containers exist for 2 of 18 tuples, certificates for one
+    weighted = tuples + [t for t in tuples if 2 in t["types"]] * 2 + [t for t in tuples if t["cert"]] * 2
+    return st.sampled_from(weighted).flatmap(per_tuple)
 
 
 # ------------------------------------------------------------------ placement / size model (documented layout rules)
@@ -439,7 +451,10 @@ def _build_config(case: dict, t: dict, plan: dict, wd: str) -> dict:
                 cc["certificate"] = path
                 if "container" in c["cert"]["perms"]:
                     signer = ck
-            cc["signing_key"] = _key_file(signer, c["sign_enc"])
+            if c["sign_enc"] == "sp_pem":
+                cc["signature_provider"] = "type=file;file_path=" + _key_file(signer, "pem")
+            else:
+                cc["signing_key"] = _key_file(signer, c["sign_enc"])
         if c["blob"]:
             b = c["blob"]
             cc["blob"] = {"key_identifier": b["key_id"], "dek_key_size": b["size"], "dek_key": bytes(b["dek"]).hex()}
@@ -498,7 +513,7 @@ def _spans(c: dict) -> list[tuple[int, int, str]]:
                 ro = r["off"] - c["base"]
                 hl = hashlib.new(r["hash"]).digest_size if r.get("hash") else 64
                 sp += [(ro, ro + 6, "srk.rec_hdr"), (ro + 6, ro + 7, "srk.rec_reserved"), (ro + 7, ro + 8, "srk.rec_flags"),
-                       (ro + 8, ro + 12, "srk.rec_lens"), (ro + 12, ro + 12 + hl, "srk.data_hash_used" if r is srk["records"][c["used_srk_id"]] else "srk.data_hash_other"),
+                       (ro + 8, ro + 12, "srk.rec_lens_v2"), (ro + 12, ro + 12 + hl, "srk.data_hash_used" if r is srk["records"][c["used_srk_id"]] else "srk.data_hash_other"),
                        (ro + 12 + hl, ro + 76, "srk.data_hash_pad")]
             sd = srk["tables"][0]["srk_data"]
             so = sd["off"] - c["base"]
@@ -513,12 +528,12 @@ def _span_name(c: dict, rel: int) -> str:
     return "pad"
 
 
-IGNORED_SPANS = {"hdr.reserved", "iae.iv_plain", "sb.key_id_unused", "srk.rec_reserved", "pad", "srkarr.reserved", "srkdata.reserved", "srk.data_hash_pad"}
+IGNORED_SPANS = {"hdr.reserved", "iae.iv_plain", "srk.rec_lens_v2", "sb.key_id_unused", "srk.rec_reserved", "pad", "srkarr.reserved", "srkdata.reserved", "srk.data_hash_pad"}
 
 
 # ------------------------------------------------------------------ the case
 def run_case(case, o: Oracle) -> None:
-    from spsdk.exceptions import SPSDKError
+    from spsdk.exceptions import SPSDKError, SPSDKVerificationError
     from spsdk.image.ahab.ahab_image import AHABImage
     from spsdk.utils.schema_validator import check_config
 
@@ -574,9 +589,12 @@ def run_case(case, o: Oracle) -> None:
             check_config(cfg, AHABImage.get_validation_schemas(case["dev"], case["rev"]), search_paths=[wd])
 
     # ---- (a) export
+    holder: dict = {}
+
     def build():
         img = AHABImage.load_from_config(cfg, search_paths=[wd])
         img.update_fields()
+        holder["img"] = img
         return img, bytes(img.export())
 
     built = data = None
@@ -594,8 +612,18 @@ def run_case(case, o: Oracle) -> None:
         o.raises("refuse", "+".join(plan["problems"]), build, (SPSDKError, struct.error))
         return
     else:
-        with o.spsdk("export"):
+        try:
             built, data = build()
+        except SPSDKVerificationError as exc:
+            # export() validates with verify(): a valid configuration reported as erroneous
+            errs = []
+            with o.spsdk("export", "verify_again"):
+                errs = _errors(holder["img"].verify())
+            o.fail("export", "valid_refused:" + _kind(errs[0].split(":")[0] if errs else "?"), "; ".join(errs[:6]) or str(exc)[:300], spsdk_frame(exc))
+        except (CaseFailed, SkipCase, HarnessError, KeyboardInterrupt):
+            raise
+        except BaseException as exc:  # noqa: BLE001
+            o.fail("export", "exc:%s" % type(exc).__name__, "%s: %s" % (type(exc).__name__, str(exc)[:400]), spsdk_frame(exc))
     if data is None:
         return
     o.label("exported")
